@@ -69,3 +69,18 @@ theorem run_append : ∀ (es1 es2 : List Ev) (s s' : St), run s (es1 ++ es2) = s
     | some s1 => rw [hs] at h; exact run_append es1 es2 s1 s' h
 
 end Fsm.R
+
+namespace Fsm.R
+
+theorem step_need {s s' : St} {e : Ev} (hs : step s e = some s') : s'.need = s.need := by
+  cases e <;> simp only [step] at hs <;> split at hs <;> cases hs <;> rfl
+
+theorem run_need : ∀ (s : St) (es : List Ev) (s' : St), run s es = some s' → s'.need = s.need
+  | s, [], s', h => by simp [run] at h; subst h; rfl
+  | s, e :: es, s', h => by
+    simp only [run] at h
+    cases hs : step s e with
+    | none => rw [hs] at h; cases h
+    | some s1 => rw [hs] at h; rw [run_need s1 es s' h, step_need hs]
+
+end Fsm.R
